@@ -1,5 +1,5 @@
 (* C13/Witness.v — non-vacuity examples (vm_compute). *)
-From Verif Require Import Common.Base C13.Model C13.Spec C13.Proofs1 C13.Proofs2 C13.Proofs3 C13.Proofs4 C13.Proofs5 C13.Proofs6 C13.Proofs7 C13.Proofs8 C13.Instances.
+From Verif Require Import Common.Base C13.Model C13.Spec C13.Proofs1 C13.Proofs2 C13.Proofs3 C13.Proofs4 C13.Proofs5 C13.Proofs6 C13.Proofs7 C13.Proofs8 C13.Proofs9 C13.Proofs10 C13.Proofs11 C13.ProofsC C13.Checkers C13.Instances.
 From Verif Require Import Generated.C13CfgSchema.
 From Coq Require Import String.
 Open Scope string_scope.
@@ -216,3 +216,23 @@ Proof.
 Qed.
 Example ov1_round : overlay (o_strip od) (Some (encode_o ov1)) = o_strip ov1.
 Proof. vm_compute. reflexivity. Qed.
+
+(* ---- reloads, unknown types, checkers ----------------------------------------------------------- *)
+Definition enc_a : cv := CMap [("exporters", CMap [("nop", CNull); ("nop/extra", CNull)])].
+Definition enc_b : cv := CMap [("exporters", CMap [("nop", CNull)])].
+Example reload_w1 : run_loads_v [(true, enc_a); (true, enc_b)] = [enc_a; enc_b].
+Proof. vm_compute. reflexivity. Qed.
+Example reload_w2 : run_loads_v [(true, enc_a); (false, enc_b); (true, enc_a)] = [enc_a].
+Proof. vm_compute. reflexivity. Qed.
+Example reload_w3 : cv_get ["exporters"; "nop/extra"] (Some enc_b) = None.   (* hypothesis of reload_removed_key_absent *)
+Proof. reflexivity. Qed.
+Example types_w1 : unknown_type_ids ["nop"; "otlp"] ["nop"; "nop/2"; "nopp"; "otlp/x"; "otlpp/x"] = ["nopp"; "otlpp/x"].
+Proof. vm_compute. reflexivity. Qed.
+Example checker_w1 : walk_complete_b w1 [] = false /\ walk_complete_b w1 (walk w1) = true /\ walk_sound_b w1 [(["x"], "y")] = false.
+Proof. vm_compute. repeat split. Qed.
+Example checker_w2 : unknown_named_b t1 v1 [] = false /\ unknown_named_b t1 v1 (unused t1 v1) = true.
+Proof. vm_compute. split; reflexivity. Qed.
+Example checker_w3 : wf_b g0 c_ok = true /\ wf_b g0 c_dangling = false.
+Proof. vm_compute. split; reflexivity. Qed.
+Example checker_w4 : no_secret_b (ev_plains e1) (encode e1) = true /\ no_secret_b (ev_plains e1) (CMap [("headers", CMap [("Authorization", CScalar "token-1")])]) = false.
+Proof. vm_compute. split; reflexivity. Qed.
